@@ -185,6 +185,15 @@ def _decide(ctx, traces):
     for i, clause in bad[:3]:
         ctx.violation("real batch construction rejected by TraceKPerSample at '%s': %s" % (clause, json.dumps(ok[i])[:500]),
                       {"kind": "raw", "trace": ok[i], "clause": clause})
+    walks = [t for t in ok if t.get("kind") == "walk" and t["steps"] and len(t["steps"][0]["allowed"]) >= 2]
+    if not bad and walks:
+        from harness.tracecheck import selftest
+
+        def corrupt(t):
+            t["steps"][0]["allowed"] = t["steps"][0]["allowed"][1:]
+            return "one plate removed from the logged result of the policy"
+        selftest(ctx, "TraceKPerSample", walks[0], corrupt, decide=None, next_="TNext", init="TInit", invariants=["TInv"],
+                 constants={"NPlates": 1, "Samples": {0}, "Ks": {1}, "Export": False})
     if ok:
         ctx.sample({"code_to_spec": ok[0]})
 
